@@ -12,7 +12,7 @@ use tokio::sync::broadcast;
 use tokio::sync::mpsc::{self, UnboundedReceiver, UnboundedSender};
 
 use std::collections::HashSet;
-use std::sync::{Arc, RwLock};
+use std::sync::{Arc, Mutex, RwLock};
 
 use scru128::Scru128Id;
 
@@ -176,6 +176,7 @@ pub struct Store {
     contexts: Arc<RwLock<HashSet<Scru128Id>>>,
     broadcast_tx: broadcast::Sender<Frame>,
     gc_tx: UnboundedSender<GCTask>,
+    append_lock: Arc<Mutex<()>>,
 }
 
 impl Store {
@@ -214,6 +215,7 @@ impl Store {
             contexts: Arc::new(RwLock::new(contexts)),
             broadcast_tx,
             gc_tx,
+            append_lock: Arc::new(Mutex::new(())),
         };
 
         // Load context registrations
@@ -506,6 +508,9 @@ impl Store {
     pub fn append(&self, mut frame: Frame) -> Result<Frame, crate::error::Error> {
         #[cfg(feature = "verif")]
         crate::verif::sync_point("append.enter", None);
+        // Assign the id, commit and broadcast as one step: concurrent appenders must become
+        // visible (to readers and to subscribers) in id order
+        let _guard = self.append_lock.lock().unwrap();
         frame.id = scru128::new();
         #[cfg(feature = "verif")]
         crate::verif::sync_point("append.id_assigned", Some(&frame.id));
